@@ -293,10 +293,10 @@ func (g *generator) walkRef(schema *schemaparser.Schema) (ast.Type, error) {
 }
 
 func (g *generator) walkString(schema *schemaparser.Schema) (ast.Type, error) {
-	def := ast.String(ast.Default(schema.Default))
+	def := ast.String(ast.Default(unwrapJSONNumber(schema.Default)))
 
 	if schema.Constant != nil {
-		def.Scalar.Value = schema.Constant[0]
+		def.Scalar.Value = unwrapJSONNumber(schema.Constant[0])
 	}
 
 	// to handle constant values defined as a string with a "static" regex:
@@ -331,10 +331,10 @@ func (g *generator) walkString(schema *schemaparser.Schema) (ast.Type, error) {
 }
 
 func (g *generator) walkBool(schema *schemaparser.Schema) (ast.Type, error) {
-	def := ast.Bool(ast.Default(schema.Default))
+	def := ast.Bool(ast.Default(unwrapJSONNumber(schema.Default)))
 
 	if schema.Constant != nil {
-		def.Scalar.Value = schema.Constant[0]
+		def.Scalar.Value = unwrapJSONNumber(schema.Constant[0])
 	}
 
 	return def, nil
@@ -346,7 +346,7 @@ func (g *generator) walkNumber(schema *schemaparser.Schema) (ast.Type, error) {
 		scalarKind = ast.KindFloat64
 	}
 
-	def := ast.NewScalar(scalarKind, ast.Default(schema.Default))
+	def := ast.NewScalar(scalarKind, ast.Default(unwrapJSONNumber(schema.Default)))
 
 	if schema.Constant != nil {
 		def.Scalar.Value = unwrapJSONNumber(schema.Constant[0])
@@ -394,8 +394,13 @@ func (g *generator) walkList(schema *schemaparser.Schema) (ast.Type, error) {
 	case schema.Items2020 != nil:
 		itemsDef, err = g.walkDefinition(schema.Items2020)
 	default:
-		// TODO: schema.Items might not be a schema?
-		itemsDef, err = g.walkDefinition(schema.Items.(*schemaparser.Schema))
+		itemsSchema, ok := schema.Items.(*schemaparser.Schema)
+		if !ok {
+			// `items` can also be a list of schemas (tuple validation)
+			return ast.Type{}, fmt.Errorf("unsupported `items` definition: a single schema is expected, got %T", schema.Items)
+		}
+
+		itemsDef, err = g.walkDefinition(itemsSchema)
 	}
 
 	// items contains an empty schema: `{}`
@@ -405,7 +410,7 @@ func (g *generator) walkList(schema *schemaparser.Schema) (ast.Type, error) {
 		return ast.Type{}, err
 	}
 
-	return ast.NewArray(itemsDef, ast.Default(schema.Default)), nil
+	return ast.NewArray(itemsDef, ast.Default(unwrapJSONNumber(schema.Default))), nil
 }
 
 func (g *generator) walkEnum(schema *schemaparser.Schema) (ast.Type, error) {
